@@ -99,6 +99,52 @@ CHECKS = {
              "Operand domain as the property states it: n in 0..=width, two's-complement width 1..64 with a value that fits.",
         technique="seeded operation-history simulation against an executable reference model (ideal bit string), plus a complete single-operation grid; shrinking by dropping operations",
     ),
+    "C10": dict(
+        engine="seamsim",
+        category="exploration",
+        text="Seeded search over call histories: a sequencer hands 2..8 (thorough 2..12) calls, one at a time, to 1..3 long-lived caller "
+             "threads (stream-level encodes through a scripted source incl. failing ones, frame-level encodes, writes to ByteSink / MemSink<u64> "
+             "with and without precomputed frames, parse + re-serialise + decode, verify). 80% of the calls are neighbours of an earlier call "
+             "(one argument changed: block smaller/larger, channels, width, Rice cap 14<->0, fixed order 4<->0, Tukey alpha +-1..300 ulp, ...) "
+             "or exact repeats. Every call's result is compared with the same call made alone on a freshly spawned thread. The multi-thread "
+             "slice (an earlier call on the same simulated main thread, then a multi-thread encode under seeded schedules) runs in parsim.",
+        design_ref="DESIGN.md section 4.1",
+        note="No concurrency is involved in the seamsim part (exactly one caller runs at a time; the operation list is the schedule); what is "
+             "simulated is the history and the identity of the calling thread, against the reference model 'a thread with no history'. "
+             "Inputs a call merely consumes (stream to write, bytes to parse) are produced on a throw-away helper thread.",
+        technique="deterministic simulation of call histories on long-lived caller threads (seeded sequencer), differential oracle against a fresh thread, history minimisation",
+    ),
+    "C14": dict(
+        engine="seamsim",
+        category="exploration",
+        text="The sample source / caller of the Fill operations is a simulated peer that delivers the same audio under different scripts: "
+             "per read as i32s or as packed LE bytes (1..4 bytes per sample), full blocks, shorter blocks, a full block followed by a shorter "
+             "one into the same buffer, through FrameBuf, &mut FrameBuf, Context and the (FrameBuf, Context) tuple. Stream level: all-ints vs "
+             "all-bytes vs mixed scripts give identical bytes (single-thread in seamsim; multi-thread under seeded schedules in parsim, against "
+             "the single-thread all-integer reference). Buffer level: after every fill the frame encoded from the buffer equals the frame of a "
+             "fresh buffer filled once as integers. Context level: MD5, sample count and frame counter agree after every step with all-ints "
+             "and all-bytes replicas, for widths 1..32 bits.",
+        design_ref="DESIGN.md section 4.4",
+        note="Relative oracle only (the two delivery paths against each other and against a fresh buffer), as the property is worded; "
+             "values are biased to the extremes of the width. After the C17 repair a byte fill must use the bytes-per-sample of the declared "
+             "width wherever a width is declared (Context); wider byte fills are exercised on FrameBuf alone.",
+        technique="deterministic simulation of the Source/Fill seam (scripted delivery of identical audio), differential oracle across delivery scripts and against a fresh buffer",
+    ),
+    "C17": dict(
+        engine="seamsim",
+        category="exploration",
+        text="Simulated part: a Byzantine peer on the Source/Fill seam misbehaves at read k of an otherwise ordinary stream (single-thread "
+             "in seamsim; multi-thread under seeded schedules in parsim) or at one fill of a fresh or already used FrameBuf / Context / tuple: "
+             "a sample outside the declared width (as ints or bytes), more samples than the buffer holds, a bytes-per-sample that disagrees "
+             "with the declared width (incl. 0, 5, 8), a frame number >= 2^31, an entry-point block size outside 32..=32767 in multi-thread "
+             "mode. Oracle: the call returns an error - no panic, no hang, no Ok, and in multi-thread mode no leaked thread. Auxiliary part "
+             "(plain boundary-value enumeration, not simulation): the format and block-size arguments of StreamInfo::new, Stream::new, "
+             "FrameBuf::with_size and encode_with_fixed_block_size on the property's grid {0, min-1, max+1, 2^8+k, 2^16+k, 2^32+k, usize::MAX}.",
+        design_ref="DESIGN.md sections 4.4, 5 (C17)",
+        note="The argument-grid clauses have no schedule or fault in them; they are enumerated for completeness and stated as such. "
+             "Sample widths 9/13/17/21/25 (accepted by the library's shared side-channel width check) are not judged.",
+        technique="deterministic simulation of a Byzantine Source/Fill peer (fault at read k, single- and multi-thread under seeded schedules) plus auxiliary boundary-value enumeration of entry-point arguments",
+    ),
 }
 
 
